@@ -1,4 +1,5 @@
 use std::cmp::Ordering;
+use std::convert::TryFrom;
 use std::hash::{Hasher, Hash};
 use std::collections::{BTreeSet};
 use std::iter::FromIterator;
@@ -95,20 +96,20 @@ impl<'a, T: ColumnProvider> ExpressionExecutionEngine<'a, T> {
                     _ => {}
                 }
 
+                if let (Value::Int(_), Value::Int(0), ArithmeticOperator::Divide) = (&left_value, &right_value, operator) {
+                    return Err(EvaluationError::DivisionByZero);
+                }
+
                 left_value.map_same_type(
                     &right_value,
                     || Some(Value::Null),
                     |x, y| {
-                        Some(
-                            Value::Int(
-                                match operator {
-                                    ArithmeticOperator::Add => x + y,
-                                    ArithmeticOperator::Subtract => x - y,
-                                    ArithmeticOperator::Multiply => x * y,
-                                    ArithmeticOperator::Divide => x / y
-                                }
-                            )
-                        )
+                        match operator {
+                            ArithmeticOperator::Add => x.checked_add(y),
+                            ArithmeticOperator::Subtract => x.checked_sub(y),
+                            ArithmeticOperator::Multiply => x.checked_mul(y),
+                            ArithmeticOperator::Divide => x.checked_div(y)
+                        }.map(|result| Value::Int(result))
                     },
                     |x, y| {
                         Some(
@@ -135,13 +136,18 @@ impl<'a, T: ColumnProvider> ExpressionExecutionEngine<'a, T> {
                     },
                     |x, y| {
                         match operator {
-                            ArithmeticOperator::Add => { Some(Value::Interval(x + y)) }
-                            ArithmeticOperator::Subtract => { Some(Value::Interval(x - y)) }
+                            ArithmeticOperator::Add => { x.checked_add(&y).map(|result| Value::Interval(result)) }
+                            ArithmeticOperator::Subtract => { x.checked_sub(&y).map(|result| Value::Interval(result)) }
                             ArithmeticOperator::Multiply => { None }
                             ArithmeticOperator::Divide => { None }
                         }
                     }
-                ).ok_or(EvaluationError::UndefinedOperation)
+                ).ok_or_else(|| {
+                    match (&left_value, &right_value) {
+                        (Value::Int(_), Value::Int(_)) => EvaluationError::IntegerOverflow,
+                        _ => EvaluationError::UndefinedOperation
+                    }
+                })
             }
             ExpressionTree::UnaryArithmetic { operand, operator } => {
                 let operand_value = self.evaluate(operand)?;
@@ -150,7 +156,7 @@ impl<'a, T: ColumnProvider> ExpressionExecutionEngine<'a, T> {
                     || Some(Value::Null),
                     |x| {
                         match operator {
-                            UnaryArithmeticOperator::Negative => Some(-x),
+                            UnaryArithmeticOperator::Negative => x.checked_neg(),
                             UnaryArithmeticOperator::Invert => None
                         }
                     },
@@ -242,7 +248,7 @@ impl<'a, T: ColumnProvider> ExpressionExecutionEngine<'a, T> {
 
                         arg.map(
                             || Some(Value::Null),
-                            |x| Some(x.abs()),
+                            |x| x.checked_abs(),
                             |x| Some(x.abs()),
                             |_| None,
                             |_| None,
@@ -273,11 +279,7 @@ impl<'a, T: ColumnProvider> ExpressionExecutionEngine<'a, T> {
                             &arg1,
                             || Some(Value::Null),
                             |x, y| {
-                                if y >= 0 {
-                                    Some(Value::Int(x.pow(y as u32)))
-                                } else {
-                                    None
-                                }
+                                u32::try_from(y).ok().and_then(|y| x.checked_pow(y)).map(|result| Value::Int(result))
                             },
                             |x, y| Some(Value::Float(Float(x.powf(y)))),
                             |_, _| None,
@@ -529,7 +531,10 @@ impl<'a, T: ColumnProvider> ExpressionExecutionEngine<'a, T> {
                         let index = self.evaluate(index)?;
                         match index {
                             Value::Int(value) => {
-                                Ok(values.get((value - 1) as usize).cloned().unwrap_or(Value::Null))
+                                let element = value.checked_sub(1)
+                                    .and_then(|index| usize::try_from(index).ok())
+                                    .and_then(|index| values.get(index));
+                                Ok(element.cloned().unwrap_or(Value::Null))
                             }
                             _ => {
                                 Err(EvaluationError::ExpectedArrayIndexingToBeInt(index.value_type()))
@@ -607,6 +612,8 @@ pub enum EvaluationError {
     GroupKeyNotFound,
     GroupValueNotFound,
     UndefinedOperation,
+    DivisionByZero,
+    IntegerOverflow,
     UndefinedFunction(Function, Vec<Option<ValueType>>),
     InvalidRegex(String),
     ExpectedArray(Option<ValueType>),
@@ -627,6 +634,8 @@ impl std::fmt::Display for EvaluationError {
             EvaluationError::GroupKeyNotFound => { write!(f, "Group key not found") }
             EvaluationError::GroupValueNotFound => { write!(f, "Group value not found") }
             EvaluationError::UndefinedOperation => { write!(f, "Undefined operation") }
+            EvaluationError::DivisionByZero => { write!(f, "Division by zero") }
+            EvaluationError::IntegerOverflow => { write!(f, "Integer overflow") }
             EvaluationError::UndefinedFunction(function, arguments) => {
                 write!(
                     f,
